@@ -545,8 +545,11 @@ func (r *Run) assertCond(g *G, cond Value, id string) {
 				r.stats.FinalSat++
 				r.verdicts = append(r.verdicts, r.snapshotVerdict("assert", id, "assertion is false on this path", pos, m))
 			} else {
+				// the assertion is false here but the solver could not decide whether the path is feasible:
+				// never a pass - reported as inconclusive
 				r.unmarkViolated(id)
 				r.stats.Unknown++
+				r.recordUnknown(id, pos)
 			}
 		}
 		panic(abortRun{"assertion failed (concrete)"})
